@@ -104,6 +104,7 @@ def _reindex(prog, keep):
 def reflag(prog):
     prog['truth'] = all(i['t'] for i in prog['instrs'])
     prog['exact'] = all(i['p'] for i in prog['instrs']) and not prog.get('stale_views')
+    prog['frozen'] = any(i.get('off') for i in prog['instrs'])
 
 
 def _trivial(ins):
